@@ -288,3 +288,12 @@ def natural_alignment(lines):
         if l['kind'] == 'data' and l['size'] % 2:
             return False
     return True
+
+
+# programs for the off / on acceptance product of C12 only (the other obligations do not apply: a pc-relative reference
+# to an absolute constant legitimately encodes different numbers in the two modes)
+C12_ONLY = [
+    ('offset_of_constant_after_li', ['li x6 1', 'addi x5 x5 %offset(K0)', F4]),
+    ('offset_of_constant_after_mv', [FC, 'mv x8 x9', 'addi x9 x9 %offset(K0)', 'sw x8 x9 %offset(K0)', F4]),
+    ('offset_of_constant_in_li', ['ret', 'li x7 %offset(K0)', 'lw x9 x8 %offset(K0)']),
+]
